@@ -161,7 +161,115 @@ func ChildMain(dir string, seed int64, killSpec, prefix string) {
 	line("end")
 }
 
+// ---- Init with a seed set larger than one BadgerDB transaction ----------------------
+
+const bigSeeds = 4000
+
+func openBig(dir, prefix string) (*badger.DB, *badgerstore.Store, error) {
+	opts := badger.DefaultOptions(dir)
+	opts.Logger = nil
+	opts.Truncate = true
+	opts.MaxTableSize = 1 << 20 // transactions hold about 1600 small entries
+	db, err := badger.Open(opts)
+	if err != nil {
+		return nil, nil, err
+	}
+	st := badgerstore.NewStore(db).SetType(val{})
+	if prefix != "" {
+		st.SetPrefix(prefix)
+	}
+	return db, st, nil
+}
+
+// BigChildMain runs Init with bigSeeds seeds; killSpec as in ChildMain.
+func BigChildMain(dir, killSpec, prefix string) {
+	point, k := "", 0
+	if i := strings.LastIndexByte(killSpec, ':'); i > 0 {
+		point = killSpec[:i]
+		k, _ = strconv.Atoi(killSpec[i+1:])
+	}
+	count := 0
+	badgerstore.VerifHook = func(p string, a ...interface{}) {
+		if p != point {
+			return
+		}
+		count++
+		if count == k {
+			syscall.Kill(os.Getpid(), syscall.SIGKILL)
+			select {}
+		}
+	}
+	db, st, err := openBig(dir, prefix)
+	if err != nil {
+		fmt.Println("child: cannot open:", err)
+		os.Exit(3)
+	}
+	ack, err := os.OpenFile(filepath.Join(dir, "..", filepath.Base(dir)+".acks"), os.O_CREATE|os.O_WRONLY|os.O_APPEND, 0o644)
+	if err != nil {
+		os.Exit(3)
+	}
+	err = st.Init(func(add func(id string, v interface{})) error {
+		for i := 0; i < bigSeeds; i++ {
+			add(fmt.Sprintf("s%04d", i), val{V: "seed", K: "kseed"})
+		}
+		return nil
+	})
+	if err == nil {
+		ack.WriteString("init ok\n")
+	} else {
+		ack.WriteString("init err\n")
+	}
+	ack.Sync()
+	db.Close()
+	ack.WriteString("end\n")
+	ack.Sync()
+}
+
+// bigRun executes the child, reopens the database and counts what Init left behind.
+func bigRun(kill, prefix string) (rec, error) {
+	base, err := os.MkdirTemp("", "vcrashbig-")
+	if err != nil {
+		return nil, err
+	}
+	defer os.RemoveAll(base)
+	dir := filepath.Join(base, "db")
+	os.MkdirAll(dir, 0o755)
+	cmd := exec.Command(filepath.Join(core.VerifDir, "bin", "engine"), "__crashbig", dir, kill, prefix)
+	var out bytes.Buffer
+	cmd.Stdout = &out
+	cmd.Stderr = &out
+	if err := cmd.Start(); err != nil {
+		return nil, err
+	}
+	done := make(chan error, 1)
+	go func() { done <- cmd.Wait() }()
+	select {
+	case <-done:
+	case <-time.After(60 * time.Second):
+		cmd.Process.Kill()
+		<-done
+		return nil, fmt.Errorf("child hung: %s", out.String())
+	}
+	acks, _ := os.ReadFile(filepath.Join(base, "db.acks"))
+	db, st, err := openBig(dir, prefix)
+	if err != nil {
+		return nil, fmt.Errorf("cannot reopen the database after the crash: %v", err)
+	}
+	defer db.Close()
+	present := 0
+	for i := 0; i < bigSeeds; i++ {
+		if _, err := st.Get(fmt.Sprintf("s%04d", i)); err == nil {
+			present++
+		}
+	}
+	ran := false
+	st.Init(func(add func(id string, v interface{})) error { ran = true; return nil })
+	return rec{"judge": "biginit", "present": present, "total": bigSeeds, "initialised": !ran, "initacked": strings.Contains(string(acks), "init ok"),
+		"dbg": fmt.Sprintf("Init with %d seeds (more than one transaction holds) kill=%q prefix=%q acks=%q", bigSeeds, kill, prefix, strings.ReplaceAll(string(acks), "\n", ";"))}, nil
+}
+
 type runSpec struct {
+	big    bool // Init with more seeds than one transaction holds
 	seed   int64
 	kill   string
 	prefix string
@@ -328,6 +436,11 @@ func Run(c *core.Ctx) {
 			specs = append(specs, runSpec{seed: seed, prefix: prefix, random: time.Duration(15+rng.Intn(120)) * time.Millisecond})
 		}
 	}
+	for _, prefix := range []string{"", "pfx"} {
+		for _, kill := range []string{"", "bs.init.fn:1", "bs.init.written:1", "bs.init.marker:1"} {
+			specs = append(specs, runSpec{big: true, kill: kill, prefix: prefix})
+		}
+	}
 	recs := make([]interface{}, len(specs))
 	errs := make([]error, len(specs))
 	var wg sync.WaitGroup
@@ -338,8 +451,18 @@ func Run(c *core.Ctx) {
 			defer wg.Done()
 			sem <- struct{}{}
 			defer func() { <-sem }()
-			r, err := oneRun(rs)
-			recs[i], errs[i] = r, err
+			var r rec
+			var err error
+			if rs.big {
+				r, err = bigRun(rs.kill, rs.prefix)
+			} else {
+				r, err = oneRun(rs)
+			}
+			if r == nil {
+				recs[i], errs[i] = nil, err
+			} else {
+				recs[i], errs[i] = r, err
+			}
 		}(i, rs)
 	}
 	wg.Wait()
@@ -366,7 +489,10 @@ func Run(c *core.Ctx) {
 		var recs2 []interface{}
 		var which []string
 		for _, i := range bad {
-			for _, cl := range []string{"durable", "reinit", "rebuild"} {
+			for _, cl := range []string{"durable", "reinit", "rebuild", "biginit"} {
+				if (good[i].(rec)["judge"] == "biginit") != (cl == "biginit") {
+					continue
+				}
 				r2 := rec{}
 				for k, v := range good[i].(rec) {
 					r2[k] = v
@@ -381,6 +507,11 @@ func Run(c *core.Ctx) {
 			kind := which[j]
 			if kind == "rebuild" && strings.Contains(fmt.Sprint(m["dbg"]), `prefix=""`) {
 				kind = "rebuild:empty-prefix"
+			}
+			if kind == "biginit" {
+				c.Violate(core.Violation{Signature: map[string]string{"engine": "crash", "kind": kind},
+					Text: fmt.Sprintf("Init left the store half-seeded: %v of %v seeds present, initialised=%v, Init acknowledged=%v [%v]", m["present"], m["total"], m["initialised"], m["initacked"], m["dbg"]), Replay: m})
+				return
 			}
 			c.Violate(core.Violation{Signature: map[string]string{"engine": "crash", "kind": kind},
 				Text: fmt.Sprintf("clause %s fails: acked %v, in flight %v, read back %v, after re-init %v, rebuild error %q, index %v (expected %v) [%v]", which[j], m["acked"], m["inflight"], m["obs"], m["obs2"], m["rebuildError"], m["indexIds"], m["expectIndexIds"], m["dbg"]), Replay: m})
